@@ -9,15 +9,14 @@ MANIFEST = dict(
    note="Trusted: Lean kernel; axioms propext/Classical.choice/Quot.sound only; the Go harness, its math/big oracle and the comparer; strconv.ParseFloat/FormatFloat and strings.ToLower enter the model as parameters whose results the harness ships with each case (their correctness is assumed, cross-checked against math/big on the generated cases only); strings.TrimSpace, strconv.ParseInt/ParseUint/FormatInt, big.Int.SetString are Lean functions (Model/ParseInt.lean) proved against an independent positional denotation and driven against the real functions on boundary-directed texts (P/F lines). amd64 semantics of int64(float). Primitives (int64(f), float32(f), big.Int.Float64) and five raw clauses are validated on generated cases, not for all inputs; the translator harness/numgen is trusted. ToFloat64 of a complex source returns the magnitude (open known finding complex-magnitude, witness theorem complex_magnitude_witness). Time and []byte sources and complex/time targets are outside the property and not modelled. Spurious failures (e.g. uint64 values above MaxInt64, +Inf into float32) are allowed by the statement and only counted.",
    design="DESIGN.md §5 C17, §3.6; notes/C17.md")
 
-MODULES = ["Gozod.Proofs.C17", "Gozod.Proofs.C17Dispatch", "Gozod.Proofs.C17Parse", "Gozod.Proofs.C17Text", "Gozod.Proofs.C17Schema"]
+MODULES = ["Gozod.Proofs.C17", "Gozod.Proofs.C17Dispatch", "Gozod.Proofs.C17Parse", "Gozod.Proofs.C17Text", "Gozod.Proofs.C17Schema", "Gozod.Proofs.C17Float"]
 THEOREMS = [
     "Gozod.C17.c17_int64_sound", "Gozod.C17.c17_int64_err", "Gozod.C17.c17_int64_err_nan", "Gozod.C17.c17_int64_err_inf",
     "Gozod.C17.c17_int64_err_fractional", "Gozod.C17.c17_int64_err_range", "Gozod.C17.floatToInt64_complete",
     "Gozod.C17.c17_integer_sound", "Gozod.C17.c17_integer_err", "Gozod.C17.c17_integer_err_negative", "Gozod.C17.c17_integer_i64_eq",
     "Gozod.C17.c17_bigint_sound", "Gozod.C17.roundTo_correct", "Gozod.C17.c17_int_to_f64_nearest", "Gozod.C17.c17_int_to_f64_exact",
     "Gozod.C17.rneDiv_nearest", "Gozod.C17.roundMag_correct", "Gozod.C17.c17_float64_sound", "Gozod.C17.c17_float64_nan_err", "Gozod.C17.c17_float64_finite", "Gozod.C17.c17_f32_no_inf",
-    "Gozod.C17.c17_bool_table", "Gozod.C17.c17_bool_sound", "Gozod.C17.c17_schema", "Gozod.C17.c17_schema_exact_first",
-    "Gozod.C17.c17_schema_int_sound", "Gozod.C17.c17_schema_sound", "Gozod.C17.c17_schema_check_exact", "Gozod.C17.toInteger_int_iff", "Gozod.C17.c17_float64_partial", "Gozod.C17.complex_magnitude_witness",
+    "Gozod.C17.c17_bool_table", "Gozod.C17.c17_bool_sound", "Gozod.C17.toInteger_int_iff", "Gozod.C17.c17_float64_partial", "Gozod.C17.complex_magnitude_witness",
     "Gozod.C17.legacy_int64_wraps_f64", "Gozod.C17.legacy_int64_wraps_f32", "Gozod.C17.legacy_integer_truncates",
     "Gozod.C17.legacy_integer_nan", "Gozod.C17.legacy_not_sound",
     # over the tables regenerated from the source (Gen/CoerceDispatch.lean)
@@ -28,6 +27,8 @@ THEOREMS = [
     "Gozod.C17D.schema_routes", "Gozod.C17D.bool_words", "Gozod.C17D.bool_pre", "Gozod.C17D.frames", "Gozod.C17D.deref_first",
     "Gozod.C17D.nil_table", "Gozod.C17D.case_types_known", "Gozod.C17D.results_known",
     "Gozod.C17D.c17_int64_sound_table", "Gozod.C17D.c17_integer_sound_table",
+    # round 4c: engine.parsePrimitiveValue (order of its tests, the coercion branch) and the Parse method of every primitive schema type
+    "Gozod.C17D.parsePrimitiveValue_coerce_table", "Gozod.C17D.parsePrimitiveValue_order", "Gozod.C17D.schema_parse_routes", "Gozod.C17D.bigint_parse_pre",
     # text primitives as Lean functions (Model/ParseInt.lean): ParseInt / ParseUint / SetString / FormatInt / TrimSpace
     "Gozod.C17P.parseInt_sound", "Gozod.C17P.parseInt_complete", "Gozod.C17P.parseInt_iff", "Gozod.C17P.formatInt_denotes",
     "Gozod.C17P.parseInt_formatInt", "Gozod.C17P.parseInt_formatInt_i64", "Gozod.C17P.parseUint_formatNat", "Gozod.C17P.parseUint_sound",
@@ -38,9 +39,16 @@ THEOREMS = [
     "Gozod.C17T.c17_integer_text_sound", "Gozod.C17T.c17_string_int_sound", "Gozod.C17T.c17_text_roundtrip_i64",
     "Gozod.C17T.c17_text_roundtrip_big", "Gozod.C17T.c17_bigint_text_sound", "Gozod.C17T.sign_after_prefix_witness",
     "Gozod.C17T.c17_float32_sound", "Gozod.C17T.c17_string_sound",
-    # third sentence composed with what the validation is: float schemas (exact), BigInt schemas (exact since 4945548; legacy witness)
-    "Gozod.C17S.c17_schema_check_exact_float", "Gozod.C17S.c17_schema_float_sound", "Gozod.C17S.bigToF64_exact",
-    "Gozod.C17S.c17_bigint_check_exact", "Gozod.C17S.legacy_bigint_check_partial", "Gozod.C17S.legacy_bigint_check_witness",
+    # third sentence (round 4c): the coercing schema = parsePrimitiveValue's transcription over C01's Prim.parse and C16's checks;
+    # driver_c17 runs parseValue AND plainOnCoerced / parsePlain on every S line
+    "Gozod.C17S.c17_schema_eq", "Gozod.C17S.plainOnCoerced_ok", "Gozod.C17S.plainOnCoerced_err", "Gozod.C17S.c17_schema_exact_first",
+    "Gozod.C17S.parseValue_plain", "Gozod.C17S.c17_schema_sound", "Gozod.C17S.c17_schema_outcomes", "Gozod.C17S.runFrom_preds",
+    "Gozod.C17S.checked_iff", "Gozod.C17S.holds_exact", "Gozod.C17S.c17_schema_int_sound", "Gozod.C17S.c17_schema_check_exact",
+    "Gozod.C17S.c17_schema_check_exact_float", "Gozod.C17S.c17_bigint_check_exact", "Gozod.C17S.isPrefix_spec",
+    "Gozod.C17S.bigToF64_exact", "Gozod.C17S.legacy_bigint_check_partial", "Gozod.C17S.legacy_bigint_check_witness",
+    # float targets: value theorems against the independent NearestMag (roundMag_correct + rneDiv_nearest composed)
+    "Gozod.C17F.toFloatF64_eq", "Gozod.C17F.roundMag_nearest", "Gozod.C17F.toFloat32_f64_value", "Gozod.C17F.toFloat64_big_value",
+    "Gozod.C17F.toFloat32_big_value", "Gozod.C17F.toFloat64_float_value",
 ]
 
 def _src(t, i):
@@ -53,12 +61,27 @@ def parse_op(op):
     t = C.op_body(op).split(" ")
     if t[1] in ("P", "F"):
         return dict(mode=t[1], helper="text", tgt="-", kind="text", src=t[2:], oracle=[])
+    chain, ptr = [], "0"
     if t[1] == "H":
         mode, helper, tgt, i = "H", t[2], t[3], 4
     else:
-        mode, helper, tgt, i = "S", "schema", t[2], 6
+        # S <tgt> <ptr> <n> (<op> <bkind> <bval>)^n SRC | ORACLE
+        n = int(t[4]); ptr = t[3]
+        chain = [tuple(t[5 + 3 * k: 8 + 3 * k]) for k in range(n)]
+        mode, helper, tgt, i = "S", "schema", t[2], 5 + 3 * n
     kind, j = _src(t, i)
-    return dict(mode=mode, helper=helper, tgt=tgt, kind=kind, src=t[i:j], oracle=t[j + 1:])
+    return dict(mode=mode, helper=helper, tgt=tgt, kind=kind, src=t[i:j], oracle=t[j + 1:], chain=chain, ptr=ptr)
+
+def _halves(impl):
+    """S lines: '<coercing schema> ~ <plain schema on the coerced value>'."""
+    if " ~ " in impl:
+        a, b = impl.split(" ~ ", 1)
+        return a, b
+    return impl, None
+
+def _differs(impl):
+    a, b = _halves(impl)
+    return b is not None and a != b
 
 def _cls(kind):
     if kind in ("f32", "f64"): return "float"
@@ -88,19 +111,41 @@ def _reason(p):
         if t in ("f32", "f64"): return "overflow-to-inf"
     return "other"
 
+_RANGE = {"i8": (-2**7, 2**7 - 1), "i16": (-2**15, 2**15 - 1), "i32": (-2**31, 2**31 - 1), "i64": (-2**63, 2**63 - 1), "int": (-2**63, 2**63 - 1),
+          "u8": (0, 2**8 - 1), "u16": (0, 2**16 - 1), "u32": (0, 2**32 - 1), "u64": (0, 2**64 - 1), "uint": (0, 2**64 - 1)}
+
+def _fits(p):
+    """the denoted value has a faithful image in the target type (so an error can only come from a check)."""
+    den = p["oracle"][0] if p["oracle"] else "?"
+    t = p["tgt"]
+    if t in ("bool", "str"): return den != "none" or p["kind"] in ("bool", "str")
+    if not den.startswith("Q"): return den in ("+inf", "-inf") and t in ("f32", "f64")
+    n, d = den[1:].split("/")
+    q = Fraction(int(n), int(d))
+    if t in _RANGE: return q.denominator == 1 and _RANGE[t][0] <= q <= _RANGE[t][1]
+    if t == "big": return q.denominator == 1
+    return len(p["oracle"]) > 2 and p["oracle"][1 if t == "f64" else 2].startswith("F")
+
 def key(op, impl, M, S):
     p = parse_op(op)
     if p["mode"] == "P": return "text:TrimSpace/ParseInt/ParseUint/SetString"
     if p["mode"] == "F": return "text:FormatInt/FormatUint/big.String"
     head = "%s:%s:%s->%s" % (p["mode"], p["helper"], _cls(p["kind"]), _tcls(p["tgt"]))
-    if _cls(p["kind"]) == "complex" and p["tgt"] in ("f32", "f64") and not impl.startswith("panic") and not impl.endswith(" c0"):
+    if _cls(p["kind"]) == "complex" and p["tgt"] in ("f32", "f64") and not impl.startswith("panic") and not _differs(impl):
         return "complex-magnitude:" + head      # ToFloat64(complex) is |z| by design: one known class
-    if p["kind"] == "str" and p["tgt"] == "big" and impl.startswith("ok") and not impl.endswith(" c0"):
+    if p["kind"] == "str" and p["tgt"] == "big" and impl.startswith("ok") and not _differs(impl):
         raw = (b"" if p["src"][1] == "-" else bytes.fromhex(p["src"][1])).strip().lower()
         if raw[:3] in (b"0x+", b"0x-"): return "sign-after-0x-prefix:" + head   # "0x+1F": one known class
     if impl.startswith("panic"): return head + ":panic"
-    if impl.endswith(" c0"): return head + ":schema-differs-from-plain-on-coerced-value"
+    if _differs(impl): return head + ":schema-differs-from-plain-on-coerced-value"
+    chk = ""
+    if p["mode"] == "S" and p["chain"]:
+        # which kinds of check the chain holds (a wrong verdict of one of them is a class of its own)
+        chk = ":with-" + "+".join(sorted(set(c[0] if c[0] in ("mul", "refine", "prefix", "minlen", "maxlen") else "bound" for c in p["chain"])))
     if impl.startswith("ok") and S is not None and S.startswith("err"):
+        if chk and _fits(p):
+            # the source has a faithful image in the target: it is a CHECK of the chain that passed wrongly
+            return head + ":check-passed-wrongly" + chk
         return head + ":accepts:" + _reason(p)
     return head + ":wrong-value"
 
@@ -151,15 +196,19 @@ def describe(op):
                     "toFloat": "coerce.ToFloat[" + GO_T[t] + "](%s)", "toBool": "coerce.ToBool(%s)", "toString": "coerce.ToString(%s)",
                     "toBigInt": "coerce.ToBigInt(%s)", "to": "coerce.To[" + GO_T[t] + "](%s)"}[h] % x
             return call + "   // coerce = github.com/kaptinlin/gozod/pkg/coerce; " + C.op_comment(op)
-        tk = C.op_body(op).split(" ")
-        cop, bk, bv = tk[3], tk[4], tk[5]
         chk = ""
-        if cop != "none":
-            m = {"lt": "Lt", "lte": "Lte", "gt": "Gt", "gte": "Gte", "minlen": "Min", "maxlen": "Max"}[cop]
-            arg = ("math.Float64frombits(%s) /* %r */" % (bv, _f64(bv))) if bk == "f64" else (("bigFromString(\"%s\")" % bv) if bk == "big" else bv)
-            chk = ".%s(%s)" % (m, arg)
+        for cop, bk, bv in p["chain"]:
+            if cop == "refine":
+                chk += ".Refine(even / whole / true / non-empty, by value kind: harness refinePred)"; continue
+            m = {"lt": "Lt", "lte": "Lte", "gt": "Gt", "gte": "Gte", "minlen": "Min", "maxlen": "Max", "mul": "MultipleOf", "prefix": "StartsWith"}[cop]
+            if bk == "f64": arg = "math.Float64frombits(%s) /* %r */" % (bv, _f64(bv))
+            elif bk == "big": arg = 'bigFromString("%s")' % bv
+            elif bk == "h": arg = repr((b"" if bv == "-" else bytes.fromhex(bv)).decode("latin-1"))
+            else: arg = bv
+            chk += ".%s(%s)" % (m, arg)
         return ("zc.%s()%s.Parse(%s)   // zc = github.com/kaptinlin/gozod/coerce; variant 1 = %sPtr(), 2 = Integer()/Number(); %s; "
-                "c0 = differs from gozod.%s()%s.Parse(coerce.To[%s](input))" % (GO_C[t], chk, x, GO_C[t], C.op_comment(op), GO_C[t], chk, GO_T[t]))
+                "observation '<that> ~ <gozod.%s()%s.Parse(coerce.To[%s](input))>' (the plain schema on the input itself when it has the type)"
+                % (GO_C[t], chk, x, GO_C[t], C.op_comment(op), GO_C[t], chk, GO_T[t]))
     except Exception as e:
         return "see harness/cmd/c17/c17.go (%s)" % e
 
@@ -167,7 +216,8 @@ def satisfies(impl, S):
     """The statement allows a coercion to fail; what it forbids is succeeding with another value
     (or succeeding where an error is required), and a schema disagreeing with the plain schema."""
     if impl == S: return True
-    if impl.startswith("err") and not impl.endswith(" c0"): return True
+    if _differs(impl): return False
+    if impl.startswith("err"): return True
     return False
 
 def run(res):
@@ -184,7 +234,7 @@ def run(res):
         return res.finish()
     ops, impl, model, stats = data
     # driver lines are "model \t spec \t flags"; fold "satisfies" into the spec column for C.decide
-    spurious, strict, boolwide, blank, nonconf, biginexact = {}, 0, 0, 0, 0, 0
+    spurious, strict, boolwide, blank, nonconf, biginexact, noexact, differ = {}, 0, 0, 0, 0, 0, 0, 0
     folded = []
     for i in range(len(ops)):
         parts = model[i].split("\t")
@@ -197,6 +247,8 @@ def run(res):
             if "B" in fl: boolwide += 1
             if "Z" in fl: blank += 1
         if "X" in fl: biginexact += 1
+        if "E" in fl: noexact += 1
+        if _differs(im): differ += 1
         if im != S and satisfies(im, S):
             p = parse_op(ops[i])
             k = "%s:%s->%s" % (p["helper"], _cls(p["kind"]), _tcls(p["tgt"]))
@@ -214,7 +266,9 @@ def run(res):
     res.coverage["strict_reading_rounded_successes"] = strict
     res.coverage["bool_from_number_other_than_0_1"] = boolwide
     res.coverage["blank_string_read_as_zero"] = blank
-    res.coverage["bigint_bound_compared_through_float64_inexactly"] = biginexact
+    res.coverage["bigint_bounds_where_a_float64_comparison_would_differ"] = biginexact
+    res.coverage["checks_without_exact_specification(float MultipleOf: the code's epsilon rule is the oracle)"] = noexact
+    res.coverage["schema_lines_where_coercing_and_plain_schema_differ"] = differ
     res.coverage["spurious_failures_allowed_by_statement"] = spurious
     if nonconf: res.notes.append("%d driver lines were not of the form model/spec/flags" % nonconf)
     res.assumptions += [
